@@ -401,6 +401,13 @@ def load_instrumented(path, modname):
     ast.fix_missing_locations(tree)
     mod = types.ModuleType(modname)
     mod.__file__ = path
+    if '.' in modname:
+        pkg = modname.rsplit('.', 1)[0]
+        mod.__package__ = pkg
+        if pkg not in sys.modules:
+            pm = types.ModuleType(pkg)
+            pm.__path__ = []
+            sys.modules[pkg] = pm
     mod.__dict__.update(INJECT)
     sys.modules[modname] = mod
     exec(compile(tree, path, 'exec'), mod.__dict__)
